@@ -344,6 +344,7 @@ def correspondence(ctx, model_ok=True):
                    "lattice; distinct by canonical JSON.",
            "samples": cases[:3], "model_runner": "Eval vm_compute in generated cases files (sharded coqc)",
            "failures": [], "broken": []}
+    out["all_cases"] = cases          # the driver runs the property oracle on these as well
     if not model_ok:
         out["broken"].append({"what": "correspondence not run: the model did not build"})
         return out
